@@ -95,6 +95,7 @@ type Obligation struct {
 	Goal   string
 	Pos    string
 	Expect string // "unsat" normally; "sat" for vacuity/cover checks
+	Ctx    int    // number of context assertions in force when the obligation was raised
 	Src    string
 	// filled by the runner
 	Res  SolverResult
@@ -151,6 +152,8 @@ type VC struct {
 	nonNilGlobs []string
 	ldCache     map[string][]string
 	atCallSeen  map[string]int
+	logSkip     map[ssa.Instruction]bool
+	logSkipFn   map[*ssa.Function]bool
 	factGuard   string // path condition under which facts derived during a contract evaluation hold
 }
 
@@ -210,6 +213,8 @@ func (vc *VC) declareRaw(key, decl string) {
 		r.decls = append(r.decls, decl)
 	}
 }
+func (vc *VC) declaredRaw(key string) bool { return vc.root().declSet[key] }
+
 func (vc *VC) assume(f string) {
 	if f == "true" || f == "" {
 		return
@@ -304,6 +309,13 @@ func (vc *VC) literalAxioms() []string {
 			names = append(names, vc.f64Const[k])
 		}
 		out = append(out, "(distinct "+strings.Join(names, " ")+")")
+	}
+	if vc.declaredRaw("ptr_tid") {
+		for _, k := range sortedKeys(vc.typeIDs) {
+			if strings.HasPrefix(k, "*") {
+				out = append(out, fmt.Sprintf("(ptr_tid %d)", vc.typeIDs[k]))
+			}
+		}
 	}
 	return out
 }
@@ -542,19 +554,42 @@ func zeroObj(s Sort) string {
 var zeroLit = [...]string{"0", "false", "str_empty", "f64_zero", "(mkptr 0 0 0)", "(mkslice 0 0 0 0 0)", "(mkiface 0 (mkptr 0 0 0))", "0"}
 
 // alloc creates a fresh object; all of its slots are zero in every heap kind.
-func (vc *VC) alloc(h *Heap, guard string, dyn int) string {
+// alloc creates a fresh object. Its contents are zero in the heap kinds that a value of type t
+// (the allocated type; nil = unknown: all kinds) can occupy - a well-typed program never reads
+// the other kinds at this object. isMap: a map object (empty domain, length 0).
+func (vc *VC) alloc(h *Heap, guard string, dyn int, t ...types.Type) string {
 	o := vc.define("obj", "Int", plus(h.Alloc, "1"))
 	h.Alloc = o
-	for s := Sort(0); s < nSorts; s++ {
-		vc.assume(eq(sel(h.H[s], o), zeroObj(s)))
-	}
-	for _, k := range sortedKeys(h.M) {
-		if strings.HasPrefix(k, "MD_") {
-			vc.assume(eq(sel(h.M[k], o), "((as const (Array "+mapKeySort(k)+" Bool)) false)"))
+	var want map[Sort]bool
+	isMap := false
+	if len(t) > 0 && t[0] != nil {
+		want = map[Sort]bool{}
+		tt := t[0]
+		if _, ok := tt.Underlying().(*types.Map); ok {
+			isMap = true
+		} else {
+			if sl, ok := tt.Underlying().(*types.Slice); ok {
+				tt = sl.Elem()
+			}
+			for _, l := range vc.L.Leaves(tt) {
+				want[l.Sort] = true
+			}
 		}
 	}
-	if ml, ok := h.M["ML"]; ok {
-		vc.assume(eq(sel(ml, o), "0"))
+	for s := Sort(0); s < nSorts; s++ {
+		if want == nil || want[s] {
+			vc.assume(eq(sel(h.H[s], o), zeroObj(s)))
+		}
+	}
+	if want == nil || isMap {
+		for _, k := range sortedKeys(h.M) {
+			if strings.HasPrefix(k, "MD_") {
+				vc.assume(eq(sel(h.M[k], o), "((as const (Array "+mapKeySort(k)+" Bool)) false)"))
+			}
+		}
+		if ml, ok := h.M["ML"]; ok {
+			vc.assume(eq(sel(ml, o), "0"))
+		}
 	}
 	if dyn != 0 {
 		// guarded: dyntype is not versioned, and allocations on different branches may reuse
